@@ -250,6 +250,7 @@ pub fn worker(prop: &dyn Prop, a: &WorkerArgs) -> i32 {
     }
     let start = std::time::Instant::now();
     let mut rep = WorkerReport::default();
+    let mut stats: BTreeMap<&'static str, u64> = BTreeMap::new();
     let mut hashes: Vec<u64> = Vec::new();
     let mut idx = a.from + a.offset;
     while idx < a.to {
@@ -258,7 +259,23 @@ pub fn worker(prop: &dyn Prop, a: &WorkerArgs) -> i32 {
             break;
         }
         beat.fetch_add(1, Ordering::SeqCst);
-        let r = run_one_traced(prop, &corpus, a.seed, idx, Some(&current), a.trace.as_deref());
+        // every run gets a fresh thread, i.e. fresh thread-local state of the system under test: a
+        // run must not depend on what earlier runs of this worker left behind, otherwise its replay
+        // file (which holds this run only) would not reproduce it
+        let (r, run_stats) = std::thread::scope(|s| {
+            s.spawn(|| {
+                let r = run_one_traced(prop, &corpus, a.seed, idx, Some(&current), a.trace.as_deref());
+                (r, sut::take_stats())
+            })
+            .join()
+            .unwrap_or_else(|_| {
+                eprintln!("harness error: the run thread of run {} panicked", idx);
+                std::process::exit(101)
+            })
+        });
+        for (k, v) in run_stats {
+            *stats.entry(k).or_insert(0) += v;
+        }
         rep.runs += 1;
         rep.steps += r.ops.len() as u64;
         if r.aborted {
@@ -294,7 +311,7 @@ pub fn worker(prop: &dyn Prop, a: &WorkerArgs) -> i32 {
         bytes.extend_from_slice(&h.to_le_bytes());
     }
     let _ = std::fs::write(format!("{}.hashes", a.out), bytes);
-    for (k, v) in sut::take_stats() {
+    for (k, v) in stats {
         rep.stats.insert(k.to_string(), v);
     }
     std::fs::write(&a.out, serde_json::to_string(&rep).unwrap()).expect("write worker report");
